@@ -4,7 +4,10 @@ EXTENDS PauliSyntax, TraceBase
 
 Done == ~Has("exc")
 \* pauli(description)
-ParseOK == (Rec.op = "parse" /\ Done) => Rec.ret = Enc(Parse(Rec.tokens))
+\* (ret2: the same description parsed again after the caller changed the first result in place -- a description
+\* denotes the same operator every time it is read)
+ParseOK == (Rec.op = "parse" /\ Done) => /\ Rec.ret = Enc(Parse(Rec.tokens))
+                                          /\ Has("ret2") => Rec.ret2 = Enc(Parse(Rec.tokens))
 \* pauli(dict, N): letters at the listed (1-based) positions, identity elsewhere
 ParseDictOK == (Rec.op = "parsedict" /\ Done) =>
     /\ Len(Rec.ret) = Rec.n + 1 /\ Rec.ret[Rec.n + 1] = 0
